@@ -452,7 +452,13 @@ pub fn parse_choice_text(input: &str) -> Result<ParsedChoiceText, CompilerError>
         // Append closing punctuation from `end` to choice_only_text only when the
         // `end` segment is plain text that starts with closing punctuation (like `."` or `,'`).
         // Do NOT pull chars from an expression like `{foo}`.
-        let display_suffix: String = if !end.trim_start().starts_with('{') {
+        // (Ink itself never does this; `logic_in_choices_test` expects it for `[...],'`.
+        // A bracket text that closes its quote itself, as in `'Get out[.'],' you say`,
+        // must not get a second one.)
+        let closes_itself = choice_only_text
+            .trim_end()
+            .ends_with(['\'', '"', ')', ']']);
+        let display_suffix: String = if !closes_itself && !end.trim_start().starts_with('{') {
             end_text
                 .chars()
                 .take_while(|c| c.is_ascii_punctuation())
